@@ -74,6 +74,19 @@ Theorem C05_names_only_grow_expr :
   forall prof fuel x e v e', wf e -> produce_expr prof fuel x e = XOk v e' -> SK (scopes e) (scopes e').
 Proof. exact names_only_grow_expr. Qed.
 
+(** calls are by value: the argument values are bound under the parameter names in the call's own scope; a
+    store to a name that scope binds stays there and leaves every enclosing scope — the caller's variables,
+    also one with the same name — exactly as it was; a lookup finds the innermost binding.  (Values are
+    immutable in the model: an array passed as an argument is a value, not a reference; that the
+    implementation's Rc::make_mut gives the same is suite EXEC-array-histories.) *)
+Theorem C05_store_innermost :
+  forall n v t ss x, tab_lookup_var n t = Ok x -> store_var n v (t :: ss) = tab_set (lower_name n) (EVar v) t :: ss.
+Proof. exact store_innermost. Qed.
+
+Theorem C05_find_innermost :
+  forall n t ss x, tab_lookup_var n t = Ok x -> find_var n (t :: ss) = Ok x.
+Proof. exact find_innermost. Qed.
+
 (** updates of one variable never change another (callee writes to its parameters live in the
     callee's scope: with the previous theorem they are gone after the call) *)
 Theorem C05_store_other_variable_unchanged :
